@@ -2,7 +2,9 @@ package msg
 
 import (
 	"fmt"
+	"github.com/ovh/kmip-go/payloads"
 	"reflect"
+	"strings"
 	"time"
 
 	"github.com/ovh/kmip-go"
@@ -120,6 +122,30 @@ func ExtraCases(emit func(c Case)) {
 				emit(Case{Name: fmt.Sprintf("batch of %d responses from %s v%v", n, ttlv.EnumStr(ops[start]), v), Msg: resp, Ver: v})
 			}
 		}
+		// size classes: a batch of 300 items, a Locate response with 1500 identifiers, key material of 9000 and 70000 bytes
+		{
+			req := &kmip.RequestMessage{Header: kmip.RequestHeader{ProtocolVersion: v, TimeStamp: &ts, BatchCount: 300}}
+			for j := 0; j < 300; j++ {
+				req.BatchItem = append(req.BatchItem, kmip.RequestBatchItem{Operation: kmip.OperationGet, UniqueBatchItemID: []byte{byte(j >> 8), byte(j)},
+					RequestPayload: &payloads.GetRequestPayload{UniqueIdentifier: fmt.Sprintf("object-%04d-%s", j, strings.Repeat("i", j%40))}})
+			}
+			emit(Case{Name: fmt.Sprintf("batch of 300 Get requests v%v", v), Msg: req, Ver: v})
+			var ids []string
+			for j := 0; j < 1500; j++ {
+				ids = append(ids, fmt.Sprintf("id-%05d", j))
+			}
+			emit(Case{Name: fmt.Sprintf("Locate response with 1500 identifiers v%v", v), Ver: v, Msg: &kmip.ResponseMessage{Header: kmip.ResponseHeader{ProtocolVersion: v, TimeStamp: ts, BatchCount: 1},
+				BatchItem: []kmip.ResponseBatchItem{{Operation: kmip.OperationLocate, ResponsePayload: &payloads.LocateResponsePayload{UniqueIdentifier: ids}}}}})
+			for _, n := range []int{9000, 70000} {
+				key := make([]byte, n)
+				for k := range key {
+					key[k] = byte(k*7 + 1)
+				}
+				emit(Case{Name: fmt.Sprintf("Get response with %d bytes of key material v%v", n, v), Ver: v, Msg: &kmip.ResponseMessage{Header: kmip.ResponseHeader{ProtocolVersion: v, TimeStamp: ts, BatchCount: 1},
+					BatchItem: []kmip.ResponseBatchItem{{Operation: kmip.OperationGet, ResponsePayload: &payloads.GetResponsePayload{ObjectType: kmip.ObjectTypeSecretData, UniqueIdentifier: "big",
+						Object: &kmip.SecretData{SecretDataType: kmip.SecretDataTypePassword, KeyBlock: kmip.KeyBlock{KeyFormatType: kmip.KeyFormatTypeOpaque, KeyValue: &kmip.KeyValue{Plain: &kmip.PlainKeyValue{KeyMaterial: kmip.KeyMaterial{Bytes: &key}}}}}}}}}})
+			}
+		}
 		// unregistered operation with an opaque payload
 		up := kmip.NewUnknownPayload(kmip.Operation(0x99), ttlv.Value{Tag: 0x420094, Value: "id"}, ttlv.Value{Tag: 0x540001, Value: ttlv.Struct{{Tag: 0x540002, Value: int64(7)}}})
 		emit(Case{Name: fmt.Sprintf("unknown operation request v%v", v), Ver: v, Msg: &kmip.RequestMessage{Header: kmip.RequestHeader{ProtocolVersion: v, BatchCount: 1},
@@ -139,6 +165,13 @@ func ExtraCases(emit func(c Case)) {
 					}
 					emit(Case{Name: fmt.Sprintf("response item status=%d reason=%d message=%q v%v", st, rs, msg, v), Ver: v,
 						Msg: &kmip.ResponseMessage{Header: kmip.ResponseHeader{ProtocolVersion: v, TimeStamp: ts, BatchCount: 1}, BatchItem: []kmip.ResponseBatchItem{it}}})
+					if st == kmip.ResultStatusSuccess {
+						// a successful item may also carry a reason / message next to its payload
+						it3 := it
+						it3.ResponsePayload = BaselineResponse(kmip.OperationGet, v).BatchItem[0].ResponsePayload
+						emit(Case{Name: fmt.Sprintf("response item with payload status=%d reason=%d message=%q v%v", st, rs, msg, v), Ver: v,
+							Msg: &kmip.ResponseMessage{Header: kmip.ResponseHeader{ProtocolVersion: v, TimeStamp: ts, BatchCount: 2}, BatchItem: []kmip.ResponseBatchItem{it3, it3}}})
+					}
 					it2 := it
 					it2.Operation = 0
 					it2.MessageExtension = &kmip.MessageExtension{VendorIdentification: "v", CriticalityIndicator: true, VendorExtension: ttlv.Struct{{Tag: 0x540001, Value: int32(1)}}}
